@@ -187,7 +187,7 @@ PARSE_NOTE = ("Trusted: Lean kernel + propext/Classical.choice/Quot.sound; cobra
               "Modelled: internal/pflagfork LookupArg / Consumes, the offer rules of actionFlags and IsMutuallyExclusive. traverse itself is not modelled.")
 
 PROPS.update({
-    "C01": {"modules": ["Carapace.Props.C01"], "ops": [("parse", {"quick": 5000, "thorough": 250000}), ("lookuparg", {"quick": 4000, "thorough": 200000})],
+    "C01": {"modules": ["Carapace.Props.C01"], "ops": [("parse", {"quick": 5000, "thorough": 250000}), ("lookuparg", {"quick": 4000, "thorough": 200000}), ("pflagparse", {"quick": 4000, "thorough": 200000})],
             "rule": PARSE_RULE, "assumptions": PARSE_ASSUME, "claimed": True, "engine": "parse",
             "level_text": ("Partial proof + decision on the real code. Proved (stage 1 of DESIGN.md C01): `C01_short_agrees` - for every POSIX flag set in which no flag uses `=` as its shorthand and every shorthand chain the parser does not reject, carapace's LookupArg + Consumes expects the next word to be the value of flag f exactly when the program's parser takes it as f's value (induction over the chain; the hypothesis was forced by the proof and has a decided counterexample), `C01_long_attached`. The model of LookupArg/Consumes is compared exactly with internal/pflagfork, and the agreement is also evaluated against the real parser (op `lookuparg`). "
                            "Not proved: the traverse loop and the descent into sub-commands. They are decided by the marker/landing oracle on the real code: every slot of a generated tree completes to a distinct marker; each offered candidate is appended to the line, the line is run by cobra/pflag on a fresh tree, and the marker must arrive in the slot (flag of the registering command, positional index, index after `--`) that produced it; the hidden `_carapace` command must not be offered. Known descent defects are listed findings."),
